@@ -24,6 +24,14 @@ class Violation:
 PRUNE = object()
 
 
+class Soft:
+    """A violation that does not stop the exploration of the path."""
+
+    def __init__(self, violation, state):
+        self.violation = violation
+        self.state = state
+
+
 def explore(g, init, at=None, edge=None, start=None, max_states=400000):
     """Breadth-first exploration of (node, abstract state) pairs.
 
@@ -45,6 +53,16 @@ def explore(g, init, at=None, edge=None, start=None, max_states=400000):
         nid, st = cur
         node = g.nodes[nid]
         st2 = at(node, st) if at is not None else st
+        if isinstance(st2, Soft):
+            v = st2.violation
+            key = (v.message, nid)
+            if key not in reported:
+                reported.add(key)
+                v.node = node
+                v.path = _path(seen, cur)
+                v.state = st
+                violations.append(v)
+            st2 = st2.state
         if isinstance(st2, Violation):
             key = (st2.message, nid)
             if key not in reported:
@@ -462,3 +480,116 @@ def implied_atoms(test, label):
 
     visit(test, truth)
     return out
+
+
+class Flags:
+    """Light path sensitivity: truthiness of a few tracked simple names /
+    self attributes, learnt from branches and literal assignments, used to
+    prune infeasible branches.  State is a frozenset of (key, bool)."""
+
+    def __init__(self, F, keyfn):
+        self.F = F
+        self.keyfn = keyfn      # (expr, frame) -> key or None
+
+    def key(self, e, fr):
+        return self.keyfn(e, fr)
+
+    def learn(self, node, st, lab):
+        """-> new state or PRUNE for the branch `lab` of test `node`."""
+        if node.kind != 'test' or lab not in ('T', 'F'):
+            return st
+        d = dict(st)
+        for e, truth in implied_atoms(node.ast, lab):
+            k = None
+            val = truth
+            if isinstance(e, ast.Name) and e.id in node.frame.bindings and \
+                    node.frame.bindings[e.id][2] == 'default' and \
+                    isinstance(node.frame.bindings[e.id][0], ast.Constant) \
+                    and e.id not in self.F.b.local_defs(node.frame.func):
+                # parameter left at its constant default by this call
+                if bool(node.frame.bindings[e.id][0].value) != truth:
+                    return PRUNE
+                continue
+            if isinstance(e, ast.Compare) and len(e.ops) == 1 and \
+                    isinstance(e.comparators[0], ast.Constant) and \
+                    e.comparators[0].value is None:
+                # `x is None` says x is falsy; `x is not None` says nothing
+                # about truthiness in general -- but for the flags we track
+                # (None / object) it does.
+                k = self.key(e.left, node.frame)
+                if isinstance(e.ops[0], ast.Is):
+                    val = not truth
+                elif isinstance(e.ops[0], ast.IsNot):
+                    val = truth
+                else:
+                    k = None
+            else:
+                k = self.key(e, node.frame)
+            if k is None:
+                continue
+            if k in d and d[k] != val:
+                return PRUNE
+            d[k] = val
+        return frozenset(d.items())
+
+    def assign(self, node, st, lab):
+        if lab == 'e':
+            return st
+        d = None
+        for op in self.F.ops(node):
+            if op.kind == 'store':
+                k = self.key(op.ast, node.frame)
+                if k is None:
+                    continue
+                v = store_value(op)
+                if d is None:
+                    d = dict(st)
+                if isinstance(v, ast.Constant):
+                    d[k] = bool(v.value)
+                else:
+                    d.pop(k, None)
+        return st if d is None else frozenset(d.items())
+
+    def value(self, st, key):
+        return dict(st).get(key)
+
+    def eval(self, e, st, fr):
+        """Evaluate a constant-or-flag expression (`ro and 'rb' or 'r+b'`):
+        -> (known, value)"""
+        if isinstance(e, ast.Constant):
+            return True, e.value
+        k = self.key(e, fr)
+        if k is not None:
+            v = self.value(st, k)
+            return (v is not None), v
+        if isinstance(e, ast.BoolOp):
+            vals = e.values
+            if isinstance(e.op, ast.And):
+                last = (True, True)
+                for v in vals:
+                    kn, x = self.eval(v, st, fr)
+                    if not kn:
+                        return False, None
+                    if not x:
+                        return True, x
+                    last = (kn, x)
+                return last
+            else:
+                last = (True, False)
+                for v in vals:
+                    kn, x = self.eval(v, st, fr)
+                    if not kn:
+                        return False, None
+                    if x:
+                        return True, x
+                    last = (kn, x)
+                return last
+        if isinstance(e, ast.IfExp):
+            kn, t = self.eval(e.test, st, fr)
+            if not kn:
+                return False, None
+            return self.eval(e.body if t else e.orelse, st, fr)
+        if isinstance(e, ast.UnaryOp) and isinstance(e.op, ast.Not):
+            kn, x = self.eval(e.operand, st, fr)
+            return kn, (not x) if kn else None
+        return False, None
